@@ -14,7 +14,7 @@ import types
 
 PID = "C54"
 LEVEL = "proof"
-LEAN = ["SaVerif.Props.C54", "SaVerif.Props.C54MT"]
+LEAN = ["SaVerif.Props.C54", "SaVerif.Props.C54MT", "SaVerif.Props.C54Merge"]
 META = {
     "text": "Lean theorems, all for arbitrary operation sequences / arbitrary arguments: OrderedSet — the representation invariant (_list duplicate-free and equal as a set to the builtin-set part) is preserved by every method over any number of live sets with arguments of every kind (orderedset_inv), the iteration order of every live set after any history equals the insertion-ordered-set reference run (orderedset_refines_reference), every method's iteration order equals the insertion-ordered-set reference (survivors keep their order, new elements by first occurrence: *_spec, orderedset_order_is_first_insertion) and results are the mathematical set operations (*_mem); IdentitySet — no id held twice after any sequence, each operation is the set operation on ids, comparisons decide the set relations, order is first insertion; immutabledict — union/merge_with contents and key order equal the plain left-to-right merge whichever object (self / an argument / a fresh dict) is returned, lookup gives the last defining argument; LRUCache — one entry per key and unique counters after any history, size <= capacity*(1+threshold) after every __setitem__, the _manage_size loop terminates after one pass, evicted entries are strictly older than retained ones, the key just set survives, get/[] return only the value most recently stored under that key; under threads (Props/C54MT, a transition system with one atomic shared access per step, any number of threads, no fairness) every interleaving satisfies: get returns only values stored under the requested key, the try-lock section is mutually exclusive, and len - (threads owing a prune + failed try-locks) <= capacity*(1+threshold) — the sequential bound itself is proved NOT to be an invariant under threads (lru_mt_size_bound_is_tight). The four models are hand transcriptions tied to the pure-Python source by differential runs (random operation sequences plus exhaustive small scope, every live object observed after every step) and an independent Python reference oracle checks the property itself on the real objects.",
     "note": "Trusted / modelled-not-verified: Lean kernel; builtin set/dict/list semantics (modelled as lists, validated by the correspondence); stdlib MutableMapping mixins used by LRUCache; the correspondence harness (differential). LRUCache threshold restricted to non-negative dyadic rationals; re-entrant size_alert not modelled; the threaded model trusts that sorted(dict.values()) is atomic under the GIL and is tied to the code by running small thread programs under the cooperative scheduler (line-granularity switches) and checking that every observed outcome is in the model's exhaustively explored reachable set. No _partial theorems: F9 (symmetric_difference_update duplicates) and F18 (IdentitySet.__ixor__ no-op) are fixed in /repo; symdiff_update_nodedup_counterexample proves the pre-fix variant violates the invariant.",
@@ -229,6 +229,51 @@ def run(ctx, deep=False):
         ctx.correspond("corr/c54:LRUCache-threads-outcome-in-Model.LruMT-reachable-set", cases, impl_out,
                        [m.split(" ")[0] for m in ctx.driver(reqs)])
 
+    # ------------------------------------------------------------ merge_lists_w_ordering vs Model.MergeLists
+    # (Props/C54Merge: duplicate-free union, each shared element once, a ++ b when disjoint)
+    from sqlalchemy.util import _collections as _C
+    import itertools
+
+    def nl(l):
+        return ",".join(map(str, l)) or "-"
+
+    cases, impl_out, reqs = [], [], []
+    pairs = []
+    # exhaustive small scope: all ordered duplicate-free lists over 4 elements up to length 3 (quick) / 4
+    dom = [p_ for n_ in range(0, (5 if thorough else 4)) for p_ in itertools.permutations(range(4), n_)]
+    pairs.extend((list(a), list(b)) for a in dom for b in dom)
+    for _ in range(6000 if thorough else 1500):
+        u = ctx.rng.randint(1, 9)
+        if ctx.rng.random() < 0.8:  # duplicate-free (what the callers pass: dict keys)
+            a = ctx.rng.sample(range(u), ctx.rng.randint(0, u))
+            b = ctx.rng.sample(range(u), ctx.rng.randint(0, u))
+            ctx.count("mergelists.nodup")
+        else:
+            a = [ctx.rng.randrange(u) for _ in range(ctx.rng.randint(0, 7))]
+            b = [ctx.rng.randrange(u) for _ in range(ctx.rng.randint(0, 7))]
+            ctx.count("mergelists.with-duplicates")
+        pairs.append((a, b))
+    for a, b in pairs:
+        case = {"kind": "mergelists", "a": a, "b": b}
+        try:
+            m = _C.merge_lists_w_ordering(list(a), list(b))
+            out = "ok " + nl(m)
+        except Exception as ex:  # noqa: BLE001
+            m, out = None, "err:" + type(ex).__name__
+        ctx.case("mergelists %s %s" % (nl(a), nl(b)), nontrivial=bool(set(a) & set(b)))
+        cases.append(case)
+        impl_out.append(out)
+        reqs.append("mergelists merge %s %s" % (nl(a), nl(b)))
+        # the property itself, for duplicate-free inputs: a duplicate-free union of both lists
+        if len(set(a)) == len(a) and len(set(b)) == len(b):
+            if m is None or sorted(m) != sorted(set(a) | set(b)):
+                ctx.violation("merge_lists_w_ordering-not-a-union", case, "got %r" % (m,))
+            elif not (set(a) & set(b)) and m != a + b:
+                ctx.violation("merge_lists_w_ordering-disjoint-not-concatenated", case, "got %r" % (m,))
+    ctx.count("mergelists.exhaustive-pairs", len(dom) * len(dom))
+    if ctx.driver_ok():
+        ctx.correspond("corr/c54:merge_lists_w_ordering-vs-Model.MergeLists", cases, impl_out, ctx.driver(reqs))
+
     # ------------------------------------------------------------ small helpers (oracle only)
     for key, case, detail in L.misc_helper_checks(ctx.rng, 1500 if thorough else 300):
         ctx.violation(key, case, detail)
@@ -277,6 +322,22 @@ def replay(ctx, obj):
         verdict = ctx.driver([req])[0] if ctx.driver_ok() else "?"
         trace, req = ["rets=%s data=%s failed=%d model:%s" % (r["rets"], r["data"], r["failed"], verdict)], [req]
         fail = r["oracle"] or (("lrucache-threads-outcome-outside-model", verdict) if verdict.startswith("no") else None)
+    elif kind == "mergelists":
+        from sqlalchemy.util import _collections as _C
+
+        m = _C.merge_lists_w_ordering(list(c["a"]), list(c["b"]))
+        nl = lambda l: ",".join(map(str, l)) or "-"  # noqa: E731
+        req = ["mergelists merge %s %s" % (nl(c["a"]), nl(c["b"]))]
+        model = ctx.driver(req)[0] if ctx.driver_ok() else "?"
+        trace = ["real=%r model=%s" % (m, model)]
+        nod = len(set(c["a"])) == len(c["a"]) and len(set(c["b"])) == len(c["b"])
+        fail = None
+        if nod and sorted(m) != sorted(set(c["a"]) | set(c["b"])):
+            fail = ("merge_lists_w_ordering-not-a-union", repr(m))
+        elif nod and not (set(c["a"]) & set(c["b"])) and m != list(c["a"]) + list(c["b"]):
+            fail = ("merge_lists_w_ordering-disjoint-not-concatenated", repr(m))
+        elif model != "?" and model != "ok " + nl(m):
+            fail = ("merge_lists_w_ordering-differs-from-model", model)
     elif kind == "misc":
         import random
 
